@@ -46,6 +46,22 @@ RUN_DEPENDENT = {
 }
 
 
+# The same, for programs the analyser of a given tree may or may not accept (array sizes that are not literals or final locals):
+# where a tree rejects them the property says nothing; where it accepts them, every execution must still equal a fresh run.
+RUN_DEPENDENT_IF_ACCEPTED = {
+    "local array sized by a class constant": DICE + "static class Layout {\n  public static final int WIDTH = Dice.roll() + 1;\n}\n"
+        "function main() -> void {\n  echo(\"coin=\" + Layout.WIDTH);\n  int[Layout.WIDTH] cells;\n  echo(cells);\n}\n",
+    "local array sized by a static": DICE + "static class Layout {\n  public static int extra = Dice.roll();\n}\n"
+        "function main() -> void {\n  echo(\"coin=\" + Layout.extra);\n  int[Layout.extra + 1] cells;\n  echo(cells);\n}\n",
+    "local array sized by a local": DICE + "function main() -> void {\n  int c = Dice.roll();\n  echo(\"coin=\" + c);\n  int[c + 1] cells;\n  echo(cells);\n}\n",
+    "local array sized by a final local computed at run time": DICE + "function main() -> void {\n  final int c = Dice.roll() + 1;\n  echo(\"coin=\" + c);\n  int[c] cells;\n  echo(cells);\n}\n",
+    "field array sized by a class constant": DICE + "static class Layout {\n  public static final int WIDTH = Dice.roll() + 1;\n}\nclass Register {\n  public int[Layout.WIDTH] cells;\n"
+        "  public constructor() -> Register = default;\n}\nfunction main() -> void {\n  echo(\"coin=\" + Layout.WIDTH);\n  Register r = new Register();\n  echo(r.cells);\n}\n",
+    "array sized inside a function called once per run": DICE + "static class Layout {\n  public static final int WIDTH = Dice.roll() + 1;\n}\n"
+        "function make() -> int {\n  int[Layout.WIDTH] cells;\n  echo(cells);\n  return 0;\n}\nfunction main() -> void {\n  echo(\"coin=\" + Layout.WIDTH);\n  int z = make();\n}\n",
+}
+
+
 def run_dependent(out, tier):
     """N-shot run with DIFFERENT coins per shot vs. N fresh single runs with the same coins"""
     n = bad = 0
@@ -54,7 +70,10 @@ def run_dependent(out, tier):
     jobs = []
     meta = {}
     K = 8      # draws offered per run (more than any template consumes: how many a run takes does not matter)
-    for name, src in RUN_DEPENDENT.items():
+    ALL = dict(RUN_DEPENDENT)
+    ALL.update(RUN_DEPENDENT_IF_ACCEPTED)
+    skipped = set()
+    for name, src in ALL.items():
         for d in (0.25, 0.75):
             jid = len(jobs)
             meta[jid] = (name, None, "fresh", d)
@@ -69,14 +88,22 @@ def run_dependent(out, tier):
         if kind != "fresh":
             continue
         f = res[j]
+        if name in RUN_DEPENDENT_IF_ACCEPTED and f["status"] in ("semantic", "parse"):
+            skipped.add(name)      # not an accepted program on this tree
+            continue
         if f["status"] != "ok" or f["shots"][0]["status"] != "ok" or not f["shots"][0]["echo"] or not f["shots"][0]["echo"][0].startswith("coin="):
             raise vlib.Infra("fresh run of '%s' failed: %s" % (name, str(f)[:300]))
         fresh[name][f["shots"][0]["echo"][0]] = (f["shots"][0]["echo"], f["shots"][0].get("tracked"))
-    for name in RUN_DEPENDENT:
+    for name in ALL:
+        if name in skipped:
+            continue
+        if name in RUN_DEPENDENT_IF_ACCEPTED and (len(fresh[name]) != 2 or len({tuple(v[0][1:]) for v in fresh[name].values()}) != 2):
+            skipped.add(name)      # accepted, but what this tree makes of it does not depend on the coin: nothing to compare
+            continue
         if len(fresh[name]) != 2 or len({tuple(v[0][1:]) for v in fresh[name].values()}) != 2:
             raise vlib.Infra("run-dependent program '%s' does not distinguish the two coins: %s" % (name, fresh[name]))
     for j, (name, pi, kind, _) in meta.items():
-        if kind != "multi":
+        if kind != "multi" or name in skipped:
             continue
         r = res[j]
         pat = patterns[pi]
